@@ -337,7 +337,9 @@ class Bench:
             p = os.path.join(root, name)
             shutil.rmtree(p) if os.path.isdir(p) else os.unlink(p)
         self.key = os.path.join(root, "the.cincokey")
-        self.destname = case.get("destname", "dest.cfg")
+        # (the file name holds a "$": a path is taken literally - only "~" is expanded - by save and load alike)
+        os.environ.setdefault("CINCOVAR", "elsewhere")
+        self.destname = case.get("destname", "dest-$CINCOVAR.cfg")
         self.dest = os.path.join(root, self.destname)
         self.destarg = "~/" + self.destname if case.get("tilde") else self.dest
         self.kinds = list(case["fields"])
